@@ -1,6 +1,7 @@
 #!/bin/bash
 # runs every seeded change against the check(s) of its property (and declared extra properties); prints one line per seed
-cd /verif
+V="${VERIF_HOME:-/verif}"; R="${VERIF_REPO:-/repo}"
+cd "$V"
 for d in seeded/*/; do
   s=$(basename $d); p=$(python3 -c "import json;print(json.load(open('$d/meta.json'))['property'])")
   extra=$(python3 -c "import json;print(' '.join(json.load(open('$d/meta.json')).get('also_checked_by',[])))")
